@@ -277,7 +277,45 @@ macro_rules! rd_pair_c {
     }};
 }
 
+/// the deprecated `read_from_slice` names are documented as renamed `from_slice`: same result, same rest
+fn alias_pair<H: PartialEq + std::fmt::Debug, E: std::fmt::Debug>(api: &'static str, case: &mut Case, b: &[u8], old: Result<(H, &[u8]), E>, new: Result<(H, &[u8]), E>) {
+    case.at(api);
+    case.eval();
+    case.eval();
+    let same = match (&old, &new) {
+        (Ok((h1, r1)), Ok((h2, r2))) => h1 == h2 && rel(b, r1) == rel(b, r2),
+        (Err(e1), Err(e2)) => format!("{:?}", e1) == format!("{:?}", e2),
+        _ => false,
+    };
+    if !same {
+        case.fail(format!("alias-differs:{}", api), format!("{}: {:?} but from_slice gives {:?}", api, old.map(|(h, r)| (h, r.len())), new.map(|(h, r)| (h, r.len()))));
+    }
+}
+
+#[allow(deprecated)]
+fn deprecated_aliases(door: Door, b: &[u8], case: &mut Case) {
+    match door {
+        Door::Eth2 => alias_pair("Ethernet2Header::read_from_slice", case, b, Ethernet2Header::read_from_slice(b), Ethernet2Header::from_slice(b)),
+        Door::Ether(0x8100) | Door::Ether(0x88A8) | Door::Ether(0x9100) => alias_pair("SingleVlanHeader::read_from_slice", case, b, SingleVlanHeader::read_from_slice(b), SingleVlanHeader::from_slice(b)),
+        Door::Ip => {
+            alias_pair("Ipv4Header::read_from_slice", case, b, Ipv4Header::read_from_slice(b), Ipv4Header::from_slice(b));
+            alias_pair("Ipv6Header::read_from_slice", case, b, Ipv6Header::read_from_slice(b), Ipv6Header::from_slice(b));
+            alias_pair(
+                "IpHeaders::read_from_slice",
+                case,
+                b,
+                IpHeaders::read_from_slice(b).map(|(h, n, r)| ((h, n), r)),
+                IpHeaders::from_slice(b).map(|(h, p)| ((h, p.ip_number), p.payload)),
+            );
+        }
+        Door::Transport(17) => alias_pair("UdpHeader::read_from_slice", case, b, UdpHeader::read_from_slice(b), UdpHeader::from_slice(b)),
+        Door::Transport(6) => alias_pair("TcpHeader::read_from_slice", case, b, TcpHeader::read_from_slice(b), TcpHeader::from_slice(b)),
+        _ => {}
+    }
+}
+
 pub fn check_case(door: Door, b: &[u8], case: &mut Case) {
+    deprecated_aliases(door, b, case);
     case.outcome(format!("{}:{}", super::c03::door_class(door), refdec::decode(door, b, false).shape()));
     if b.len() >= 8 {
         case.nontrivial();
